@@ -423,6 +423,27 @@ def run_case(c):
                 bad("hdf5_roundtrip", "qpoints.hdf5 frequencies are not bit-identical to the results", file="qpoints.hdf5")
             if "eigenvector" in h and not np.array_equal(np.array(h["eigenvector"]), np.array(d["eigenvectors"])):
                 bad("hdf5_roundtrip", "qpoints.hdf5 eigenvectors are not bit-identical", file="qpoints.hdf5")
+        # the same request with the dynamical matrices written out (--writedm): the block in the file is the matrix the object reports (which the option
+        # matrix above has already tied to dynamical_matrix.run); crystals without inversion at every atom make it complex, so a transposed /
+        # conjugated block is visible
+        ph.run_qpoints(qs, with_eigenvectors=bool(lrng.integers(2)), with_dynamical_matrices=True)
+        dW = ph.get_qpoints_dict()
+        ph.write_yaml_qpoints_phonon()
+        ph.write_hdf5_qpoints_phonon()
+        txt = open("qpoints.yaml").read()
+        y = yaml.safe_load(txt)
+        Dw = np.array(dW["dynamical_matrices"])
+        Dy = np.array([[[complex(row[2 * k_], row[2 * k_ + 1]) for k_ in range(nb)] for row in p["dynamical_matrix"]] for p in y["phonon"]])
+        decd = decimals_in(txt, "  - [ ")
+        obs["n_files"] += 2
+        obs["n_dynamical_matrix_blocks_read_back"] = obs.get("n_dynamical_matrix_blocks_read_back", 0) + len(Dy)
+        obs["n_dynamical_matrix_blocks_complex"] = obs.get("n_dynamical_matrix_blocks_complex", 0) + int(sum(np.abs(d_.imag).max() > 1e-6 * max(dscale, 1e-300) for d_ in Dw))
+        if Dy.shape != Dw.shape or max(np.abs((Dy - Dw).real).max(), np.abs((Dy - Dw).imag).max()) > ptol(decd or 10, np.abs(Dw)):  # (each part is rounded on its own)
+            bad("yaml_roundtrip", "qpoints.yaml dynamical_matrix block differs from the reported dynamical matrices by %.3e (scale %.3e; from its transpose by %.3e)" % (
+                np.abs(Dy - Dw).max() if Dy.shape == Dw.shape else float("inf"), dscale, np.abs(Dy - Dw.transpose(0, 2, 1)).max() if Dy.shape == Dw.shape else float("inf")), file="qpoints.yaml")
+        with h5py.File("qpoints.hdf5", "r") as h:
+            if "dynamical_matrix" not in h or not np.array_equal(np.array(h["dynamical_matrix"]), Dw):
+                bad("hdf5_roundtrip", "qpoints.hdf5 dynamical_matrix is missing or not bit-identical to the reported dynamical matrices", file="qpoints.hdf5")
         ph.run_band_structure([path], with_eigenvectors=False, with_group_velocities=True)
         bd = ph.get_band_structure_dict()
         ph.write_yaml_band_structure(filename="band.yaml")
